@@ -7,7 +7,7 @@ QN = ["vf.tfuncs:t0#t", "vf.tfuncs:t1#t", "vf.tfuncs:t2#t", "vf.tfuncs:t3#t", "c
 PARAMS = ["tree", "node", "fnarg", "kw"]
 
 
-def gen_tree(rng, tree_id, n=None, with_context=False, with_prevent=False, aimed_batch=False):
+def gen_tree(rng, tree_id, n=None, with_context=False, with_prevent=False, aimed_batch=False, with_mut=False):
     """nodes[j] = {"fn": i, "steps": [...], "fail": None|"memoized"|"transient"}; children have larger ids."""
     n = n or rng.randint(2, 7)
     nodes = [{"fn": rng.randrange(NFUN), "steps": [], "fail": None} for _ in range(n)]
@@ -28,6 +28,8 @@ def gen_tree(rng, tree_id, n=None, with_context=False, with_prevent=False, aimed
                 nodes[j]["steps"].append(["ctxcall", f, c, ctx])
             elif with_prevent and r < 0.45:
                 nodes[j]["steps"].append(["prevent", f, c])
+            elif with_mut and r < 0.3:
+                nodes[j]["steps"].append(["mutcall", f, c])
             elif r < 0.5:
                 nodes[j]["steps"].append(["call", f, c])
             elif r < 0.6:
@@ -82,18 +84,20 @@ def fn_info(v):
     return v.info() if isinstance(v, FnArg) else None
 
 
-def arg_hash(tree_id, node, fnarg=None, ctx=None):
+def arg_hash(tree_id, node, fnarg=None, ctx=None, extra=None):
     bound = {"tree": tree_id, "node": node}
     if fnarg is not None:
         bound["fnarg"] = fnarg
+    bound.update(extra or {})
     return models.spec_arg_hash(bound, ctx or None, fn_info)
 
 
 class Entry:
     """One memo entry (function, node, fnarg, effective context) and what the spec expects of it."""
 
-    def __init__(self, fn, node, fnarg, ctx):
+    def __init__(self, fn, node, fnarg, ctx, extra=None):
         self.fn, self.node, self.fnarg, self.ctx = fn, node, fnarg, ctx
+        self.extra = extra or None  # further keyword arguments of the call (values as they were when the call was made)
         self.invocations = []   # [(qualified name, arg hash)]
         self.resources = []     # [(type, url, version)]
         self.deps = set()
@@ -104,7 +108,8 @@ class Entry:
     @property
     def key(self):
         return (self.fn, self.node, self.fnarg.i if self.fnarg else None,
-                tuple(sorted((k, repr(v)) for k, v in (self.ctx or {}).items())), self.prevented)
+                tuple(sorted((k, repr(v)) for k, v in (self.ctx or {}).items())), self.prevented) + (
+                    (tuple(sorted((k, repr(v)) for k, v in self.extra.items())),) if self.extra else ())
 
 
 def simulate(tree, root_fnarg=None, root_ctx=None):
@@ -112,8 +117,8 @@ def simulate(tree, root_fnarg=None, root_ctx=None):
     entries = {}
     tid = tree["id"]
 
-    def visit(fn, node, fnarg, ctx, prevented=False):
-        e = Entry(fn, node, fnarg, ctx)
+    def visit(fn, node, fnarg, ctx, prevented=False, extra=None):
+        e = Entry(fn, node, fnarg, ctx, extra)
         e.prevented = prevented
         if e.key in entries:
             return entries[e.key]
@@ -122,13 +127,13 @@ def simulate(tree, root_fnarg=None, root_ctx=None):
         e.fail = spec.get("fail")
         e.deps.add(QN[fn])
 
-        def sub(cf, c, cfnarg=None, cctx="inherit", prevent=False):
+        def sub(cf, c, cfnarg=None, cctx="inherit", prevent=False, extra=None):
             eff = ctx if cctx == "inherit" else (cctx or None)
             if prevented:
                 # every nested memento call fails with RuntimeError before anything is recorded
                 return None
-            ch = visit(cf, c, cfnarg, eff, prevent)
-            e.invocations.append((QN[cf], arg_hash(tid, c, cfnarg, eff)))
+            ch = visit(cf, c, cfnarg, eff, prevent, extra)
+            e.invocations.append((QN[cf], arg_hash(tid, c, cfnarg, eff, extra)))
             e.deps.add(QN[cf])
             e.deps |= ch.deps
             e.children.append(ch.key)
@@ -138,6 +143,8 @@ def simulate(tree, root_fnarg=None, root_ctx=None):
             k = step[0]
             if k in ("call", "kwcall", "partial"):
                 sub(step[1], step[2])
+            elif k == "mutcall":
+                sub(step[1], step[2], extra={"tag": [node]})
             elif k == "viaarg":
                 if fnarg is not None:
                     sub(fnarg.i, step[2])
